@@ -5,7 +5,7 @@
 From Coq Require Import ZArith String List Bool Permutation.
 Import ListNotations.
 From VTL Require Import Base.Val Model.Table Model.Scalar Model.SetOps Model.Expr
-     Proofs.TableP Proofs.MonadP Proofs.SetOpsP Proofs.ExprP.
+     Proofs.TableP Proofs.MonadP Proofs.SetOpsP Proofs.SetLawsP Proofs.ExprP.
 
 (* union: a datapoint is in the result iff it comes from an operand and no EARLIER operand has its key … *)
 Theorem C05_union_first_operand_wins : forall ops r,
@@ -147,6 +147,39 @@ Example C05_setdiff_under_sub_example :
   deval e (DSet OSymdiff (DVar "A") (DKeep (DVar "B") [])) = Err ERR_SET_STRUCT.
 Proof. vm_compute. repeat split. Qed.
 
+(* algebraic laws (Proofs/SetLawsP.v): an operand combined with itself, the empty operand, symdiff in either operand order,
+   the first operand split into intersect and setdiff, union as "first operand, then what only the second has" *)
+Theorem C05_idempotence : forall a,
+  union [a; a] = a /\ intersect [a; a] = a /\ setdiff a a = [] /\ symdiff a a = [].
+Proof. intros a. split; [apply union_self|]. split; [apply intersect_self|]. split; [apply setdiff_self | apply symdiff_self]. Qed.
+
+Theorem C05_symdiff_commutes : forall a b, Permutation (symdiff a b) (symdiff b a).
+Proof. exact symdiff_comm. Qed.
+
+Theorem C05_first_operand_partition : forall a b, Permutation a (intersect [a; b] ++ setdiff a b).
+Proof. exact intersect_setdiff_partition. Qed.
+
+Theorem C05_union_is_first_plus_setdiff : forall a b, union [a; b] = a ++ setdiff b a.
+Proof. exact union_is_first_plus_setdiff. Qed.
+
+Theorem C05_setdiff_removes_every_key_of_second : forall a b k, has_key k (setdiff a b) = true -> has_key k b = false.
+Proof. exact setdiff_disjoint. Qed.
+
+Theorem C05_setdiff_idempotent : forall a b, setdiff (setdiff a b) b = setdiff a b.
+Proof. exact setdiff_idem. Qed.
+
+Theorem C05_union_keys_are_intersect_or_symdiff : forall a b k,
+  has_key k (union [a; b]) = has_key k (intersect [a; b]) || has_key k (symdiff a b).
+Proof. exact union_keys_decompose. Qed.
+
+Example C05_laws_nonvacuous :
+  let a := [([VInt 1], [VInt 10]); ([VInt 2], [VInt 20])] in
+  let b := [([VInt 2], [VInt 99]); ([VInt 3], [VInt 30])] in
+  intersect [a; b] ++ setdiff a b = [([VInt 2], [VInt 20]); ([VInt 1], [VInt 10])] /\
+  symdiff a b = [([VInt 1], [VInt 10]); ([VInt 3], [VInt 30])] /\
+  union [a; b] = [([VInt 1], [VInt 10]); ([VInt 2], [VInt 20]); ([VInt 3], [VInt 30])].
+Proof. vm_compute. repeat split. Qed.
+
 Print Assumptions C05_union_first_operand_wins.
 Print Assumptions C05_union_keys.
 Print Assumptions C05_union_one_per_key.
@@ -169,3 +202,10 @@ Print Assumptions C05_dset_in_any_context.
 Print Assumptions C05_nested_statement_is_flat_script.
 Print Assumptions C05_context_congruence.
 Print Assumptions C05_dset_under_sub.
+Print Assumptions C05_idempotence.
+Print Assumptions C05_symdiff_commutes.
+Print Assumptions C05_first_operand_partition.
+Print Assumptions C05_union_is_first_plus_setdiff.
+Print Assumptions C05_setdiff_removes_every_key_of_second.
+Print Assumptions C05_setdiff_idempotent.
+Print Assumptions C05_union_keys_are_intersect_or_symdiff.
